@@ -400,9 +400,12 @@ def main():
     ap.add_argument("--repo", default=os.environ.get("CELL2_REPO", "/repo"))
     ap.add_argument("--n", type=int)
     ap.add_argument("--keep", action="store_true")
+    ap.add_argument("--as-prop", help="report violations under this property id (sub-check of another property)")
     a = ap.parse_args()
     if a.build_only:
         enabled = json.load(open(os.path.join(ROOT, "bin", "enabled.json")))
+        for pid in list(enabled):
+            enabled += [x for x in getattr(importlib.import_module("props." + pid), "ALSO", []) if x not in enabled]
         targets = []
         for pid in enabled:
             targets += ["theories/%s/Props.vo" % pid, "theories/%s/Corr.vo" % pid]
@@ -523,6 +526,28 @@ def main():
                        "cases": []}
             violations.append((write_replay(P, "broken", payload), " no-failing-input-found"))
 
+        # 3b. sub-checks (helper developments whose theorems this property relies on)
+        sub_results = {}
+        for sub in getattr(P, "ALSO", []):
+            cmd = [sys.executable, os.path.join(ROOT, "bin", "check.py"), sub, "--tier", tier, "--repo", a.repo,
+                   "--as-prop", P.ID]
+            rc_s, out_s = run(cmd, 3000, cwd=ROOT)
+            vl = re.findall(r"^VIOLATION property=\S+ replay=(\S+)(.*)$", out_s, flags=re.M)
+            for path_s, suffix_s in vl:
+                violations.append((path_s, suffix_s))
+            m_s = re.search(r"cases=(\d+) disagree=(\d+) monitor-fail=(\d+)", out_s)
+            m_p = re.search(r"proof stage: (\d+)/(\d+)", out_s)
+            sub_results[sub] = {"exit": rc_s, "cases": int(m_s.group(1)) if m_s else 0,
+                                "disagreements": int(m_s.group(2)) if m_s else None,
+                                "theorems_discharged": int(m_p.group(1)) if m_p else 0,
+                                "theorems": int(m_p.group(2)) if m_p else 0}
+            if rc_s != 0 and not vl:
+                payload = {"property": P.ID, "kind": "broken-obligation", "sub_check": sub,
+                           "explanation": "sub-check %s failed without a replay" % sub,
+                           "output_tail": out_s.strip().split("\n")[-15:], "cases": []}
+                violations.append((write_replay(P, "broken", payload), " no-failing-input-found"))
+            log("sub-check %s: %s" % (sub, sub_results[sub]))
+
         # 4. evidence
         tags = {}
         kinds = {}
@@ -559,6 +584,8 @@ def main():
         }
         if "coqchk_s" in pr:
             cov["coqchk"] = {"wall_s": pr["coqchk_s"], "rc": pr["coqchk_rc"], "tail": pr["coqchk_tail"][-12:]}
+        if sub_results:
+            cov["sub_checks"] = sub_results
         if hasattr(P, "extra_coverage"):
             cov.update(P.extra_coverage(cases))
         ev = {"property_id": P.ID, "tier": tier, "seed": seed, "level": "proof", "coverage": cov,
@@ -577,7 +604,7 @@ def main():
     for l in known_lines:
         print(l)
     for path, suffix in violations:
-        print("VIOLATION property=%s replay=%s%s" % (P.ID, path, suffix))
+        print("VIOLATION property=%s replay=%s%s" % (a.as_prop or P.ID, path, suffix))
     log("%s %s: %s in %.1fs" % (P.ID, tier, "VIOLATION" if violations else "ok", time.time() - t0))
     sys.exit(1 if violations else 0)
 
